@@ -23,8 +23,10 @@ CHECKS["C10"] = dict(
     text="Decides, for every input string, the part of the property that lives in this repository's code: every lexer "
          "action, every (grammar action, production) pair, both error hooks and the exception constructors are evaluated "
          "abstractly over the parser's own image; each must perform only total operations, raise only ODataException "
-         "subclasses, the hooks must raise on every path, no recursion/loop depth may depend on the input, token regexes "
-         "must be free of catastrophic-backtracking shapes and the start symbol's value is always a node.",
+         "subclasses (exception constructors are evaluated with every kind of token payload and against an oracle of partial "
+         "standard-library calls), the hooks must raise on every path, no recursion depth may depend on the input, `while` loops "
+         "must be worklist traversals shown to terminate by structural descent, token regexes must not be exponentially "
+         "ambiguous (exact EDA test on the rule's NFA) and the start symbol's value is always a node.",
     note="Trusted: SLY's tokenizer/driver loops terminate given raising hooks; CPython limits other than recursion depth. "
          "Determinism is C20.",
     ref="5 C10")
